@@ -65,7 +65,7 @@ def prof(**kw):
 PROFILES_QUICK = {
     "blocks":   prof(K=5, depth=3, loop=True, nv=2),
     "init":     prof(K=4, depth=3, loop=True, init=True, nv=2),
-    "class":    prof(K=4, depth=3, cls=True, late=True, nv=2, init=True),
+    "class":    prof(K=5, depth=3, cls=True, late=True, nv=2),
     "lambda":   prof(K=4, depth=3, lam=True, init=True, nv=1),
     "ns":       prof(K=5, depth=3, ns=True, qual=True, nv=2),
     "overload": prof(K=4, depth=2, ns=True, ovl=True, nv=1, maxpar=0, sigs=SIGS, argt=ARGT),
@@ -85,8 +85,8 @@ SIM = {
     "sim-class": prof(K=12, depth=4, cls=True, loop=True, init=True, late=True, nv=2, maxpar=1),
     "sim-block": prof(K=12, depth=5, loop=True, init=True, nv=3, maxpar=2),
 }
-THOROUGH_CAP = 4000      # programs evaluated per BFS profile in the thorough tier
-QUICK_CAP = 240          # programs evaluated per BFS profile in the quick tier (seeded sample of the enumerated set)
+THOROUGH_CAP = 1500      # programs evaluated per BFS profile in the thorough tier
+QUICK_CAP = {"class": 450, "": 150}   # programs evaluated per BFS profile in the quick tier (seeded sample of the enumerated set)
 SIBLINGS = 3             # the simulator evaluates Emit on every successor of the last step: keep this many per walk
 
 
@@ -109,7 +109,7 @@ def tlc_generate(profiles, simulate=None, seed=1, workers=1, timeout=3000):
         extra = ["-simulate", "num=%d" % simulate, "-depth", str(depth), "-seed", str(seed)]
     r = vlib.tlc("Scopes", "ScopesSim.cfg" if simulate else "Scopes.cfg",
                  env={"PARAMS": pf, "OUT": out, "JAVA_TOOL_OPTIONS": "-XX:ParallelGCThreads=2 -XX:CICompilerCount=2"}, workers=workers,
-                 timeout=timeout, extra=extra, xmx="8g")
+                 timeout=timeout, extra=extra, xmx="3g" if max(p["K"] for p in profiles.values()) <= 5 and not simulate else "8g")
     if not r.ok:
         raise vlib.InfraError("Scopes.tla (%s) failed rc=%s\n%s" % (",".join(profiles), r.rc, r.out[-3000:]))
     return out, work, r
@@ -117,10 +117,12 @@ def tlc_generate(profiles, simulate=None, seed=1, workers=1, timeout=3000):
 
 def load_programs(path, cap, rnd):
     """Reads the programs TLC wrote (possibly several hundred thousand lines) in two passes: (1) digest + profile of
-    every line, (2) only the chosen lines.  cap: maximal number per profile (None = all), chosen by the seeded rnd.
+    every line, (2) only the chosen lines.  cap: maximal number per profile (None = all; a dict gives it per profile name,
+    "" = default), chosen by the seeded rnd.
     Returns (programs, {profile: number enumerated})."""
     import hashlib
     index = {}                                   # profile -> {digest: line number}
+    hard = set()                                 # digests of the programs TLC tagged as the hard case of class scope
     with open(path) as f:
         for n, line in enumerate(f):
             if not line.strip():
@@ -128,13 +130,23 @@ def load_programs(path, cap, rnd):
             m = re.search(r'"profile":"([^"]*)"', line)
             d = hashlib.sha1(re.sub(r',"profile":"[^"]*"', "", line.strip()).encode()).hexdigest()[:12]
             index.setdefault(m.group(1) if m else "?", {}).setdefault(d, n)
+            if '"hard":true' in line:
+                hard.add(d)
     want = {}
     counts = {}
-    for name, ds in index.items():
+    for name in sorted(index):
+        ds = index[name]
         counts[name] = len(ds)
         keys = sorted(ds)                        # the order in which TLC's workers wrote the lines is not deterministic
-        if cap is not None and len(keys) > cap:
-            keys = rnd.sample(keys, cap)
+        mycap = cap.get(name, cap.get("")) if isinstance(cap, dict) else cap
+        if mycap is not None and len(keys) > mycap:
+            # a sample always contains the tagged programs (up to a third of it), the rest is drawn at random
+            first = [k for k in keys if k in hard]
+            if len(first) > mycap // 3:
+                first = rnd.sample(first, mycap // 3)
+            chosen = set(first)
+            rest = [k for k in keys if k not in chosen]
+            keys = first + rnd.sample(rest, mycap - len(first))
         for k in keys:
             want[ds[k]] = k
     progs = []
@@ -156,7 +168,7 @@ def generate(tier, seed, profiles=None, cap=None, nsim=None):
     if cap is None:
         cap = QUICK_CAP if tier == "quick" else THOROUGH_CAP
     if nsim is None:
-        nsim = 36 if tier == "quick" else 1500
+        nsim = 36 if tier == "quick" else 600
     stats = {}
     with concurrent.futures.ThreadPoolExecutor(2) as ex:
         f_bfs = ex.submit(tlc_generate, profiles, None, seed, TLC_WORKERS - 1)
@@ -327,6 +339,16 @@ def tlc_judge(rows, mode="spec", chunk=1600):
     return bad
 
 
+def drop_assumed(violations):
+    """Testing aid (mutation runs before the maintainers have entered the reported deviations into known-findings.txt):
+    VERIF_ASSUME_KNOWN=key1,key2 makes the check treat these class keys as known. Unset in every registered command."""
+    assumed = set(k for k in os.environ.get("VERIF_ASSUME_KNOWN", "").split(",") if k)
+    for v in violations:
+        if v["key"] in assumed:
+            print("ASSUMED-KNOWN key=%s" % v["key"])
+    return [v for v in violations if v["key"] not in assumed]
+
+
 def program_text(prog, lang="c++", variant=0):
     lines, _ = scopes_render.render(prog, "0", lang, variant)
     return "\n".join(lines) + "\n"
@@ -365,6 +387,7 @@ def main(tier, seed, replay=None):
                 c["source"] = payload["source"]
     for key, c in sorted(classes.items()):
         violations.append({"key": key, "what": "%d programs; %s\n%s" % (c["n"], c["what"], c["source"]), "replay": c["first"]})
+    violations = drop_assumed(violations)
     rc, new, known = vlib.verdict(PID, violations)
 
     # evidence
